@@ -28,7 +28,7 @@ Section filt.
     unfold do_enter, hooked, entry_check;
     rewrite (check_rstack_ok c _ Hi); cbn [fc enabled cached stack ridx out warned];
     unfold c; cbn [fcfg trig_of ftrig t_filter t_depth t_time t_size t_trace_on t_trace_off t_trace t_caller
-                   fmode_in gdepth shp has_caller threshold sym_size].
+                   fmode_in gdepth shp has_caller threshold sym_size loc_out t_loc lmode_in].
 
   (* accepted entry: frame pushed, record index and depth advance *)
   Lemma enter_accept s i o dp a t :
